@@ -88,6 +88,19 @@ def make_cases(ctx, vocab):
         for R in RSETS:
             add(s, {"languages": ["en"]}, set(), False, "abs", R)
             add(s, {"languages": ["en"]}, set(), False, "abs", R, st={"DATE_ORDER": rng.choice(["DMY", "YMD", "YDM", "MYD"])})
+    # every preference setting next to strictness ("turning strictness on never changes a result" is not limited to the
+    # default preferences), with two-digit years, whose century the preference may move
+    PREFS = [{"PREFER_DATES_FROM": "past"}, {"PREFER_DATES_FROM": "future"}, {"PREFER_DAY_OF_MONTH": "last"}, {"PREFER_DAY_OF_MONTH": "first", "PREFER_MONTH_OF_YEAR": "last"},
+             {"PREFER_DATES_FROM": "past", "PREFER_DAY_OF_MONTH": "first"}, {"PREFER_DATES_FROM": "future", "PREFER_MONTH_OF_YEAR": "first"}, {"RETURN_TIME_AS_PERIOD": True},
+             {"PREFER_DATES_FROM": "future", "DATE_ORDER": "YMD"}, {"PREFER_DATES_FROM": "past", "DATE_ORDER": "DMY"}]
+    yy = ["10 March 35", "10 March 15", "12/05/65", "3 March 99", "14 June 68", "21.08.61", "March 35", "5 Mar 01", "01-02-03", "31/12/69", "1 Jan 00", "Tuesday 3 March 20"]
+    for pf in PREFS:
+        for s in yy + ["15 March 2015", "March 2015", "15 March", "2015", "Monday", "10:30", "March", "15"]:
+            add(s, {"languages": ["en"]}, set(), False, "abs", rng.choice(RSETS), st=dict(pf))
+        for ps in rng.sample(subsets, 4 if ctx.quick() else 31):
+            # (with an explicit DATE_ORDER a lone number may be read as the year: which parts are stated is then unknown)
+            add(gen_string(ps, rng, [m.capitalize() for m in MON], [w.capitalize() for w in WDN]), {"languages": ["en"]}, ps, "DATE_ORDER" not in pf, "abs",
+                rng.choice(RSETS), st=dict(pf))
     # custom-format and timestamp parsers: the relational clauses
     for s, fmt in [("March 2015", "%B %Y"), ("2015", "%Y"), ("15 March", "%d %B"), ("15/03/2015", "%d/%m/%Y"),
                    ("10:30", "%H:%M"), ("March", "%B"), ("15", "%d")]:
